@@ -44,12 +44,18 @@ pub fn run_seg(toks: &[&str]) -> String {
     let path = toks[0];
     let t: Vec<i64> = toks[1..5].iter().map(|s| p::<i64>(s)).collect();
     let cpath = std::ffi::CString::new(path).unwrap();
+    // whatever an earlier, unrelated system call of this thread left in errno must not show in the
+    // outcome: errno only means something after a call that failed
+    static CASE: std::sync::atomic::AtomicUsize = std::sync::atomic::AtomicUsize::new(0);
+    let stale = [libc::EINTR, libc::EAGAIN, libc::EINTR, libc::ENOENT, libc::EINTR, 0][CASE.fetch_add(1, std::sync::atomic::Ordering::SeqCst) % 6];
+    unsafe { *libc::__errno_location() = stale };
     let o = match std::panic::catch_unwind(|| ShmReader::new(cpath.as_c_str()).map(|_| ())) {
         Ok(Ok(())) => "ok".to_string(),
         Ok(Err(e)) => shm_err(e),
         Err(_) => "panic".into(),
     };
     let safe = status_word_valid(path);
+    unsafe { *libc::__errno_location() = stale };
     let (k, n) = match std::panic::catch_unwind(|| ClockBoundClient::new_with_path(path)) {
         Err(_) => ("panic".to_string(), "-".to_string()),
         Ok(Err(e)) => (cb_err(e), "-".to_string()),
